@@ -92,6 +92,10 @@ def run(ctx: Ctx, rep: Report) -> None:
     # the parameter vector the cost engine scores is in iteration order
     from .C06 import params_order
     params_order(ctx, rep)
+    # gradients of the cost go through UnitaryBuilder.eval_apply_*: the
+    # evaluating contraction is the in-place one (shared with C06)
+    from .C06 import clone_rule
+    clone_rule(ctx, rep)
 
 
 def eff(ctx: Ctx, rep: Report) -> None:
